@@ -355,6 +355,28 @@ impl P2p {
         (p2p, handle)
     }
 
+    /// Verification hook: same construction as the test-only `mocked`, returning the raw
+    /// channel ends instead of the test handle.
+    #[cfg(eigerco_lumina_verif)]
+    pub(crate) fn verif_mocked() -> (
+        Self,
+        mpsc::Receiver<P2pCmd>,
+        watch::Sender<PeerTrackerInfo>,
+    ) {
+        let (cmd_tx, cmd_rx) = mpsc::channel(16);
+        let (peer_tracker_tx, peer_tracker_rx) = watch::channel(PeerTrackerInfo::default());
+
+        let p2p = P2p {
+            cmd_tx,
+            cancellation_token: CancellationToken::new(),
+            join_handle: spawn(async {}),
+            peer_tracker_info_watcher: peer_tracker_rx,
+            local_peer_id: PeerId::random(),
+        };
+
+        (p2p, cmd_rx, peer_tracker_tx)
+    }
+
     /// Stop the worker.
     pub fn stop(&self) {
         // Signal the Worker to stop.
